@@ -33,6 +33,19 @@ HAND = [
     ("fn f(a) { let x = a; fn() { let y = x; fn() { x = x + 1; y = y + 10; x + y } } } let h = f(1)(); push(__o, h()); push(__o, h());", ["13", "24"]),
     ("let a = 1; fn f() { a } { let a = 2; push(__o, f()); push(__o, a); }", ["1", "2"]),
     ("let a = 1; { let f = fn() { a }; let a = 2; push(__o, f()); push(__o, a); }", ["1", "2"]),
+    # blocks inside a closure body must not disturb what the closure has captured
+    ("fn mk() { { let acc = 0; return fn(x) { { acc = acc + x; } acc }; } } let f = mk(); push(__o, f(5)); push(__o, f(7));", ["5", "12"]),
+    ("fn mk() { let r = null; { let acc = 10; r = fn(x) { if x > 0 { acc = acc + x; } { let t = acc; acc = t * 2; } acc }; } r } let f = mk(); push(__o, f(1)); push(__o, f(0));", ["22", "44"]),
+    ("fn mk() { let acc = 1; fn() { { acc = acc + 1; } { acc = acc * 3; } acc } } let f = mk(); push(__o, f()); push(__o, f());", ["6", "21"]),
+    ("fn mk() { { let a = 1; { let b = 2; return fn() { let i = 0; while i < 2 { a = a + b; i = i + 1; } { b = b + 1; } a * 100 + b }; } } } let f = mk(); push(__o, f()); push(__o, f());", ["503", "1104"]),
+    ("fn mk() { { let acc = 0; return fn(x) { match x { 0 => { acc = acc + 100; }, _ => { acc = acc + x; } } let out = acc; out }; } } let f = mk(); push(__o, f(0)); push(__o, f(3));", ["100", "103"]),
+    ("fn mk() { { let n = 5; return fn() { fn() { { n = n + 1; } n } }; } } let g = mk()(); push(__o, g()); push(__o, g());", ["6", "7"]),
+    # the name of an enclosing function, used from a helper closure inside it, is that function
+    ("fn f(n) { let g = fn() { f(n - 1) }; if n <= 0 { 0 } else { g() + 1 } } push(__o, f(3));", ["3"]),
+    ("fn walk(t) { let go = fn(k) { if k == 0 { 0 } else { 1 + walk(k - 1) } }; go(t) } push(__o, walk(3));", ["3"]),
+    ("let f = fn(n) { let h = fn(m) { if m == 0 { 0 } else { f(m - 1) + 1 } }; h(n) }; push(__o, f(4));", ["4"]),
+    ("fn outer(n) { fn inner(k) { if k == 0 { 100 } else { outer(k - 1) + 1 } } if n == 0 { 7 } else { inner(n) } } push(__o, outer(2)); push(__o, outer(1));", ["9", "8"]),
+    ("fn count(n) { let hops = 0; let step = fn(k) { if k > 0 { count(k - 1) + 1 } else { 0 } }; step(n) } push(__o, count(3));", ["3"]),
 ]
 
 
